@@ -331,3 +331,362 @@ def merge_private_helpers(F):
             break
     F._effects = None
     return F.merged
+
+
+# ---------------------------------------------------------------------------------------------------------------------
+# A10: std combinators applied to an effectful closure literal are control flow.
+#
+#     x.map(|p| { effect(p); v })          ==>   match x { Some(p) => { effect(p); Some(v) }  None => None }
+#     x.into_iter().for_each(|p| effect)   ==>   if let Some(p) = x { effect }
+#     c.then(|| effect)                    ==>   if c { Some(effect) } else { None }
+#
+# The rewrite is done on the MIR-lite of the function that creates the closure, before any rule runs: a switch on the
+# scrutinee's discriminant, the closure body spliced into the arm that would call it (its parameter bound to the payload),
+# and the combinator's result rebuilt in each arm.  Only closures that *do* something (write through a reference, take a
+# lock, bump a counter, call something that does) are rewritten: a pure projection such as `.filter(|v| v.is_alive(c))`
+# stays the expression the rules read it as.  A closure whose only use was rewritten is no longer a function of its own.
+
+OPT, RES = "std::option::Option::<T>::", "std::result::Result::<T, E>::"
+# variant arm -> ("call", closure argument index, how the payload is passed, what the combinator yields) | ("value", what)
+COMBINATORS = {
+    OPT + "map": ("option", {"Some": ("call", 1, "val", "some_r"), "None": ("value", "none")}),
+    OPT + "and_then": ("option", {"Some": ("call", 1, "val", "r"), "None": ("value", "none")}),
+    OPT + "inspect": ("option", {"Some": ("call", 1, "ref", "scrut"), "None": ("value", "none")}),
+    OPT + "map_or": ("option", {"Some": ("call", 2, "val", "r"), "None": ("value", "arg:1")}),
+    OPT + "map_or_else": ("option", {"Some": ("call", 2, "val", "r"), "None": ("call", 1, "noarg", "r")}),
+    OPT + "unwrap_or_else": ("option", {"Some": ("value", "payload"), "None": ("call", 1, "noarg", "r")}),
+    OPT + "or_else": ("option", {"Some": ("value", "scrut"), "None": ("call", 1, "noarg", "r")}),
+    OPT + "is_some_and": ("option", {"Some": ("call", 1, "val", "r"), "None": ("value", "false")}),
+    OPT + "is_none_or": ("option", {"Some": ("call", 1, "val", "r"), "None": ("value", "true")}),
+    OPT + "filter": ("option", {"Some": ("call", 1, "ref", "filter"), "None": ("value", "none")}),
+    OPT + "ok_or_else": ("option", {"Some": ("value", "ok_payload"), "None": ("call", 1, "noarg", "err_r")}),
+    RES + "map": ("result", {"Ok": ("call", 1, "val", "ok_r"), "Err": ("value", "err_payload")}),
+    RES + "map_err": ("result", {"Ok": ("value", "ok_payload"), "Err": ("call", 1, "val", "err_r")}),
+    RES + "and_then": ("result", {"Ok": ("call", 1, "val", "r"), "Err": ("value", "err_payload")}),
+    RES + "or_else": ("result", {"Ok": ("value", "ok_payload"), "Err": ("call", 1, "val", "r")}),
+    RES + "unwrap_or_else": ("result", {"Ok": ("value", "payload"), "Err": ("call", 1, "val", "r")}),
+    RES + "is_ok_and": ("result", {"Ok": ("call", 1, "val", "r"), "Err": ("value", "false")}),
+    RES + "inspect": ("result", {"Ok": ("call", 1, "ref", "scrut"), "Err": ("value", "scrut")}),
+    RES + "inspect_err": ("result", {"Ok": ("value", "scrut"), "Err": ("call", 1, "ref", "scrut")}),
+    "std::iter::Iterator::for_each": ("optiter", {"Some": ("call", 1, "val", "unit"), "None": ("value", "unit")}),
+    "bool::then": ("bool", {"true": ("call", 1, "noarg", "some_r"), "false": ("value", "none")}),
+}
+VARIANTS = {"option": [[0, "None"], [1, "Some"]], "optiter": [[0, "None"], [1, "Some"]], "result": [[0, "Ok"], [1, "Err"]]}
+OPT_INTO_ITER = "<std::option::Option<T> as std::iter::IntoIterator>::into_iter"
+
+
+def _combinator_of(t):
+    m = t.get("rpath") or t.get("callee") or ""
+    if m in COMBINATORS:
+        return m
+    if m in ("core::bool::<impl bool>::then", "std::primitive::bool::then") or m.endswith("bool>::then"):
+        return "bool::then"
+    return None
+
+
+def _closure_effectful(F, c, seen=None):
+    from core import site_effects, is_effectful
+    seen = seen or set()
+    if c.name in seen:
+        return False
+    seen.add(c.name)
+    if c.stores():
+        return True
+    for b, t in c.calls():
+        if is_effectful(site_effects(F, c, b)):
+            return True
+        # something is handed out mutably (`set.remove(&k)`, `heap.push(x)`): a state change the rules may be about
+        for a in t["args"]:
+            if a.get("k") in ("copy", "move") and not a["place"]["p"] and c.locals[a["place"]["l"]]["ty"].startswith("&mut "):
+                return True
+    return any(_closure_effectful(F, d, seen) for d in F.closures_of(c))
+
+
+def _inner(ty, head):
+    """T of `head<T>` / (T, E) of `Result<T, E>` as strings (top-level comma split)"""
+    if not ty.startswith(head + "<") or not ty.endswith(">"):
+        return None
+    body = ty[len(head) + 1:-1]
+    parts, depth, cur = [], 0, ""
+    for ch in body:
+        if ch in "<([":
+            depth += 1
+        elif ch in ">)]":
+            depth -= 1
+        if ch == "," and depth == 0:
+            parts.append(cur.strip())
+            cur = ""
+        else:
+            cur += ch
+    parts.append(cur.strip())
+    return parts
+
+
+def desugar_site(F, g, grec, b):
+    """rewrite the combinator call in block b of grec; returns the list of closure names spliced, or None"""
+    gb = grec["body"]
+    t = gb["blocks"][b]["term"]
+    if t.get("k") != "call" or t.get("target") is None:
+        return None
+    name = _combinator_of(t)
+    if name is None:
+        return None
+    kind, arms = COMBINATORS[name]
+    args = t["args"]
+    line = t.get("line", 0)
+    # the closure literals
+    clos = {}
+    for arm, act in arms.items():
+        if act[0] == "call":
+            if act[1] >= len(args):
+                return None
+            o = g.op_origin(args[act[1]])
+            if not (o[0] == "agg" and o[1] in F.fns and F.fns[o[1]].kind == "Closure"):
+                return None
+            c = F.fns[o[1]]
+            if len(c.live_blocks()) > 3 * MAX_BLOCKS or any(t2.get("rpath") == c.name for b2, t2 in c.calls()):
+                return None
+            clos[arm] = c
+    if not clos or not any(_closure_effectful(F, c) for c in clos.values()):
+        return None
+    if args[0].get("k") not in ("copy", "move"):
+        return None
+    xplace = args[0]["place"]
+    if kind == "optiter":
+        # x.into_iter().for_each(f): the scrutinee is the option handed to into_iter
+        src = None
+        for b2, blk in enumerate(gb["blocks"]):
+            t2 = blk["term"]
+            if t2.get("k") == "call" and t2.get("dest") == {"l": xplace["l"], "p": []} and (t2.get("rpath") or "") == OPT_INTO_ITER and xplace["p"] == []:
+                src = t2
+        if src is None or src["args"][0].get("k") not in ("copy", "move"):
+            return None
+        xplace = src["args"][0]["place"]
+    xty = gb["locals"][xplace["l"]]["ty"] if not xplace["p"] else None
+    locals_ = gb["locals"]
+
+    def new_local(ty):
+        locals_.append({"ty": ty})
+        return len(locals_) - 1
+
+    def new_block(stmts, term):
+        gb["blocks"].append({"cleanup": False, "stmts": stmts, "term": term})
+        return len(gb["blocks"]) - 1
+
+    def assign(place, rv):
+        return {"k": "assign", "place": place, "rv": rv, "line": line}
+
+    def use(op):
+        return {"k": "use", "op": op}
+
+    def mv(place):
+        return {"k": "move", "place": place}
+
+    def adt(head, variant, ops):
+        return {"k": "agg", "agg": "adt", "adt": head, "variant": variant, "names": [str(i) for i in range(len(ops))], "ops": ops}
+
+    dest, target = t["dest"], t["target"]
+    if kind == "bool":
+        variants = None
+        pty = {}
+    else:
+        variants = VARIANTS[kind]
+        head = "std::result::Result" if kind == "result" else "std::option::Option"
+        inner = _inner(xty or "", head) or []
+        pty = {"Some": inner[0] if inner else "?", "Ok": inner[0] if inner else "?", "Err": inner[1] if len(inner) > 1 else "?"}
+
+    def payload(arm):
+        return {"l": xplace["l"], "p": list(xplace["p"]) + [{"dc": arm}, {"f": "0", "i": 0}]}
+
+    spliced = []
+    arm_entry = {}
+    pending = []          # (block, closure Fn) closure calls to splice once all blocks exist
+    for arm, act in arms.items():
+        if act[0] == "value":
+            res = act[1]
+            stmts = _value_stmts(res, dest, xplace, payload, arm, args, assign, use, mv, adt, None)
+            if stmts is None:
+                return None
+            arm_entry[arm] = new_block(stmts, {"k": "goto", "target": target, "line": line})
+            continue
+        _, ci, argmode, res = act
+        c = clos[arm]
+        crec = F.raw["fns"][c.name]
+        r = new_local(crec["body"]["locals"][0]["ty"])
+        stmts = []
+        call_args = [args[ci]]
+        if argmode in ("val", "ref"):
+            tup = new_local("(%s,)" % pty.get(arm, "?"))
+            if argmode == "val":
+                stmts.append(assign({"l": tup, "p": []}, {"k": "agg", "agg": "tuple", "names": ["0"], "ops": [mv(payload(arm))]}))
+            else:
+                q = new_local("&" + pty.get(arm, "?"))
+                stmts.append(assign({"l": q, "p": []}, {"k": "ref", "mut": False, "place": payload(arm)}))
+                stmts.append(assign({"l": tup, "p": []}, {"k": "agg", "agg": "tuple", "names": ["0"], "ops": [mv({"l": q, "p": []})]}))
+            call_args.append(mv({"l": tup, "p": []}))
+        # continuation: rebuild the combinator's result
+        if res == "filter":
+            keep = new_block([assign(dest, use(mv(xplace)))], {"k": "goto", "target": target, "line": line})
+            drop = new_block([assign(dest, adt("std::option::Option", "None", []))], {"k": "goto", "target": target, "line": line})
+            cont = new_block([], {"k": "switch", "discr": mv({"l": r, "p": []}), "targets": [[0, drop]], "otherwise": keep, "dty": "bool", "line": line})
+        else:
+            cs = _value_stmts(res, dest, xplace, payload, arm, args, assign, use, mv, adt, r)
+            if cs is None:
+                return None
+            cont = new_block(cs, {"k": "goto", "target": target, "line": line})
+        cb = new_block(stmts, {"k": "call", "line": line, "fn_line": t.get("fn_line", line), "args": call_args, "dest": {"l": r, "p": []}, "target": cont,
+                               "callee": "std::ops::FnOnce::call_once", "gargs": [], "callee_local": False, "res": "unresolved", "rpath": None, "rlocal": False})
+        arm_entry[arm] = cb
+        pending.append((cb, c))
+    # the dispatch
+    blk = gb["blocks"][b]
+    if kind == "bool":
+        blk["term"] = {"k": "switch", "discr": args[0], "targets": [[0, arm_entry["false"]]], "otherwise": arm_entry["true"], "dty": "bool", "line": line}
+    else:
+        d = new_local("isize")
+        dead = new_block([], {"k": "unreachable", "line": line})
+        blk["stmts"] = blk["stmts"] + [assign({"l": d, "p": []}, {"k": "discr", "place": xplace, "ety": xty or "", "variants": variants})]
+        blk["term"] = {"k": "switch", "discr": mv({"l": d, "p": []}), "targets": [[v, arm_entry[n]] for v, n in variants], "otherwise": dead, "dty": "isize", "line": line}
+    # instance graph: the combinator's callback edges become the spliced bodies' edges
+    cb_insts = {}
+    for nid in F._by_def.get(g.name, []):
+        nd = F.nodes[nid]
+        calls = nd.get("calls") or {}
+        c0 = calls.pop(str(b), None)
+        cb_insts[nid] = list((c0 or {}).get("cbs") or [])
+        nd["calls"] = calls
+    for cb, c in pending:
+        crec = dict(F.raw["fns"][c.name], _name=c.name)
+        r2 = splice(grec, cb, crec, gb["blocks"][cb]["term"]["args"], True)
+        if r2 is None:
+            return None
+        L1, B1 = r2
+        for nid in F._by_def.get(g.name, []):
+            nd = F.nodes[nid]
+            calls = nd.get("calls") or {}
+            for inst in cb_insts.get(nid, []):
+                if F.nodes[inst]["def"] == c.name:
+                    for kb, cc in (F.nodes[inst].get("calls") or {}).items():
+                        calls[str(int(kb) + B1)] = copy.deepcopy(cc)
+            nd["calls"] = calls
+        spliced.append(c.name)
+    return spliced
+
+
+def _value_stmts(res, dest, xplace, payload, arm, args, assign, use, mv, adt, r):
+    rop = mv({"l": r, "p": []}) if r is not None else None
+    if res == "none":
+        return [assign(dest, adt("std::option::Option", "None", []))]
+    if res == "some_r":
+        return [assign(dest, adt("std::option::Option", "Some", [rop]))]
+    if res == "ok_r":
+        return [assign(dest, adt("std::result::Result", "Ok", [rop]))]
+    if res == "err_r":
+        return [assign(dest, adt("std::result::Result", "Err", [rop]))]
+    if res == "r":
+        return [assign(dest, use(rop))]
+    if res == "scrut":
+        return [assign(dest, use(mv(xplace)))]
+    if res == "unit":
+        return [assign(dest, use({"k": "const", "ty": "()", "repr": "()"}))]
+    if res == "payload":
+        return [assign(dest, use(mv(payload(arm))))]
+    if res in ("false", "true"):
+        return [assign(dest, use({"k": "const", "ty": "bool", "v": 1 if res == "true" else 0}))]
+    if res.startswith("arg:"):
+        return [assign(dest, use(args[int(res[4:])]))]
+    if res == "ok_payload":
+        return [assign(dest, adt("std::result::Result", "Ok", [mv(payload(arm))]))]
+    if res == "err_payload":
+        return [assign(dest, adt("std::result::Result", "Err", [mv(payload(arm))]))]
+    return None
+
+
+def desugar_combinators(F):
+    """A10 driver: innermost closures first, so that a combinator inside a closure body is control flow before that
+    closure is itself spliced into its parent"""
+    from core import Fn
+    F.desugared = {}
+    for _round in range(4):
+        changed = False
+        order = sorted(F.fns, key=lambda n: (-n.count("{closure#"), n))
+        for gname in order:
+            g = F.fns.get(gname)
+            if g is None:
+                continue
+            grec = F.raw["fns"][gname]
+            n0 = len(grec["body"]["blocks"])
+            did = []
+            for b in sorted(g.live_blocks()):
+                if b >= n0:
+                    continue
+                t = grec["body"]["blocks"][b]["term"]
+                if t.get("k") == "call" and _combinator_of(t):
+                    backup = copy.deepcopy(grec)
+                    nodes_backup = {nid: copy.deepcopy(F.nodes[nid].get("calls")) for nid in F._by_def.get(gname, [])}
+                    r = desugar_site(F, g, grec, b)
+                    if r is None:
+                        grec.clear()
+                        grec.update(backup)
+                        for nid, cs in nodes_backup.items():
+                            F.nodes[nid]["calls"] = cs
+                    else:
+                        did += r
+                        g = Fn(F, gname, grec)
+                        F.fns[gname] = g
+            if did:
+                changed = True
+                for cn in did:
+                    F.desugared[cn] = gname
+        # a closure whose creation site was rewritten is part of its parent now
+        for cn in list(F.desugared):
+            if cn in F.fns:
+                still = False
+                for g in F.fns.values():
+                    if g.name == cn:
+                        continue
+                    for b2, t2 in g.calls():
+                        for a in t2["args"]:
+                            o = g.op_origin(a)
+                            if o[0] == "agg" and o[1] == cn and not (t2.get("callee") == "std::ops::FnOnce::call_once" and t2.get("res") == "unresolved"):
+                                still = True
+                if not still:
+                    for d in list(F.fns):
+                        if d == cn or d.startswith(cn + "::{closure"):
+                            del F.fns[d]
+        F._effects = None
+        if not changed:
+            break
+    return F.desugared
+
+
+def resolve_into(F):
+    """`x.into()` through std's blanket `impl<T, U: From<T>> Into<U> for T` is a call of this crate's `U::from(x)` when the
+    crate implements that conversion: the call record is rewritten to name it (so it is inlined / summarised as code)"""
+    from core import Fn
+    n = 0
+    for gname, grec in F.raw["fns"].items():
+        touched = False
+        for b, blk in enumerate(grec["body"]["blocks"]):
+            t = blk["term"]
+            if t.get("k") == "call" and t.get("callee") == "std::convert::Into::into" and len(t.get("gargs") or []) == 2 and not t.get("rlocal"):
+                tgt = "<%s as std::convert::From<%s>>::from" % (t["gargs"][1], t["gargs"][0])
+                if tgt not in F.raw["fns"]:
+                    # (an impl for a foreign / primitive target type is named after the module it is written in)
+                    suffix = "<impl std::convert::From<%s> for %s>::from" % (t["gargs"][0], t["gargs"][1])
+                    alt = [n_ for n_ in F.raw["fns"] if n_.endswith(suffix)]
+                    tgt = alt[0] if len(alt) == 1 else tgt
+                if tgt in F.raw["fns"]:
+                    t["callee"], t["rpath"], t["rlocal"], t["callee_local"], t["res"] = "std::convert::From::from", tgt, True, True, "item"
+                    t["gargs"] = [t["gargs"][1], t["gargs"][0]]
+                    insts = F._by_def.get(tgt, [])
+                    if len(insts) == 1:
+                        for nid in F._by_def.get(gname, []):
+                            calls = F.nodes[nid].get("calls") or {}
+                            calls[str(b)] = {"k": "local", "inst": insts[0], "callee": tgt}
+                            F.nodes[nid]["calls"] = calls
+                    touched = True
+                    n += 1
+        if touched and gname in F.fns:
+            F.fns[gname] = Fn(F, gname, grec)
+    return n
